@@ -20,7 +20,7 @@ def cases(tier, inst) -> Iterator[dict]:
             if max(v) == 0:
                 continue
             T = G.temps(n, "uniform")
-            lad = list(G.ladders(T, max_levels if not (tier == "thorough" and n <= 4) else 4, 0))     # thorough: 4-level ladders on the shapes of <=4 rows
+            lad = list(G.ladders(T, max_levels, 0))
             for li, levels in enumerate(lad):
                 for glide in ("iso", "glide", "mixed"):
                     if glide in ("glide", "mixed") and li % 3 != 0 and tier == "quick":
